@@ -4,9 +4,9 @@
 From Coq Require Import List Ascii Arith Bool.
 From Coq Require Import ExtrOcamlBasic.
 From GT Require Import Base.GoStr Md.Parser Tree.Tree Tree.Gen Tree.Grower
-  Out.Spreader Out.Formatted Out.Walker Api.Simple Api.Programmable Api.Faults Api.Cli Api.Wasm Spec.Spec Spec.Classify.
+  Out.Spreader Out.Formatted Out.Walker Api.Simple Api.Programmable Api.Faults Api.Cli Api.Wasm Spec.Spec Spec.Classify Conc.Splitter.
 
 Extraction "model.ml"
   parse_all p0 path_clean path_join valid_path utf8_valid all_space scan_lines
   output_md walk_md wasm_output default_bfmt
-  render trie_of forest_of_items classify_rows spec_visits prun world0 output_faulty output_root_faulty output_faulty_kth output_root_faulty_kth run_cli.
+  render trie_of forest_of_items classify_rows spec_visits prun world0 output_faulty output_root_faulty output_faulty_kth output_root_faulty_kth run_cli split_doc gen_block.
